@@ -144,10 +144,16 @@ func GenPLen(r *core.RNG, maxChunks int) int {
 func GenSegs(r *core.RNG, n int) []int {
 	var segs []int
 	rem := n
-	mode := r.Intn(6)
+	mode := r.Intn(7)
 	for rem > 0 && len(segs) < 4000 {
 		var s int
 		switch mode {
+		case 6:
+			// exactly one or two chunks (a full chunk stays parked in the writer), then everything else in one call
+			s = rem
+			if len(segs) == 0 && rem > 65536 {
+				s = 65536 * (1 + r.Intn(2))
+			}
 		case 0:
 			s = rem
 		case 1:
@@ -186,7 +192,7 @@ func GenSegs(r *core.RNG, n int) []int {
 	}
 	if r.Chance(1, 5) {
 		// io.Copy feeding: everything, or the tail after the first write
-		k := -r.Pick(1<<20, 65536, 32768, 4096, 100, 7)
+		k := -r.Pick(1<<20, 65536, 32768, 4096, 100, 7, 1<<20+1, 65537, 32769, 4097, 101) // odd: EOF together with the last bytes
 		if len(segs) > 1 && r.Bool() {
 			segs = []int{segs[0], k}
 		} else {
@@ -328,6 +334,7 @@ func EncryptWith(recipients []age.Recipient, spec FileSpec, segs []int, dst io.W
 
 // PlainReader delivers Data in pieces of at most Max bytes and implements
 // nothing but Read (no WriteTo), like a file or a pipe.
+// An odd Max also makes it report io.EOF together with its last bytes (as decompressors and HTTP bodies do).
 type PlainReader struct {
 	Data []byte
 	Max  int
@@ -343,6 +350,9 @@ func (r *PlainReader) Read(p []byte) (int, error) {
 	}
 	n = copy(p[:n], r.Data)
 	r.Data = r.Data[n:]
+	if len(r.Data) == 0 && r.Max%2 == 1 {
+		return n, io.EOF
+	}
 	return n, nil
 }
 
